@@ -64,8 +64,8 @@ def run(case, idx):
         res['tokens'] = toks
         # the generated stub of this module
         sp = generate_stub(path=Path(p), stubs=StubsManager(paths=[Path(d)]))
-        res['stub'] = json.load(open(sp))
-        os.remove(sp)
+        res['stub'] = json.load(open(sp)) if os.path.exists(sp) else {}      # an empty stub is not written
+        if os.path.exists(sp): os.remove(sp)
         if case.get('variant_src'):
             pv = os.path.join(d, 'modc18v.py')
             open(pv, 'w').write(case['variant_src'])
@@ -75,7 +75,7 @@ def run(case, idx):
             cal = os.path.join(d, lib + '.py')
             open(cal, 'w').write(case['callee_src'])
             sp2 = generate_stub(path=Path(cal), stubs=StubsManager(paths=[Path(d)]))
-            res['callee_stub'] = json.load(open(sp2))
+            res['callee_stub'] = json.load(open(sp2)) if os.path.exists(sp2) else {}
             open(cal, 'w').write(case['callee_stripped'])
             q = os.path.join(d, 'usec18.py')
             open(q, 'w').write(case['caller'].replace('libc18', lib))
